@@ -46,6 +46,7 @@ type step struct {
 type modelBeh struct {
 	Lay string `json:"lay"`
 	Tk  []int  `json:"tk"`
+	Fk  string `json:"fk"` // kind of store operation of which one fails in this behaviour ("none")
 	St  []step `json:"st"`
 }
 
@@ -149,6 +150,7 @@ func drive(env *fw.Env, fb fw.Behaviour) *fw.Trace {
 
 type mcfg struct {
 	mode, procs, layouts, renew, wiring string
+	faults                              string // kinds of store operation of which one may fail once
 	hasNX                               bool
 	ncands, maxAtt, maxCalls            int
 	nslots, maxTicks                    int
@@ -171,7 +173,7 @@ func (c mcfg) job(name string, emit bool, invs string, workers int) fw.TLCJob {
 		"MODE": c.mode, "PROCS": c.procs, "HASNX": b(c.hasNX), "NCANDS": fmt.Sprint(max(c.ncands, 1)),
 		"MAXATT": fmt.Sprint(max(c.maxAtt, 1)), "MAXCALLS": fmt.Sprint(max(c.maxCalls, 1)), "LAYOUTS": c.layouts,
 		"NSLOTS": fmt.Sprint(max(c.nslots, 1)), "RENEW": c.renew, "WIRING": c.wiring,
-		"MAXTICKS": fmt.Sprint(c.maxTicks), "EMIT": b(emit), "INVS": invs}}
+		"MAXTICKS": fmt.Sprint(c.maxTicks), "EMIT": b(emit), "INVS": invs, "FAULTS": c.faults}}
 }
 
 const (
@@ -183,7 +185,10 @@ const (
 	l3  = `"distinct", "same", "mixed"`
 	inG = "Unique HeldDisjoint NoTaken HeldMarked Exhaustion"
 	inF = "NoTaken Exhaustion FallbackOnlyDeviation"
-	inN = "NodeUnique NoForeign ClaimNeverExpiresUnderLiveHolder NoWrongTier"
+	inN = "NodeUnique NoForeign ClaimNeverExpiresUnderLiveHolder NoWrongTier FailedHoldsNothing"
+	fG  = `"SetNX", "Delete"`         // one failing SetNX / Delete on the shared store
+	fF  = `"Exists", "Set", "Delete"` // fallback path
+	fN  = `"SetNX"`                   // one failing SetNXRuntime during allocation
 	inL = "NoForeign NodeOnlyDeviation"
 )
 
@@ -195,6 +200,7 @@ func modelJobs(env *fw.Env) []fw.TLCJob {
 	}
 	return []fw.TLCJob{
 		mcfg{mode: "gen", procs: p3, layouts: l3, hasNX: true, ncands: 3, maxAtt: 2, maxCalls: 2}.job("mc:gen:setnx:3x3x2", false, inG, 16),
+		mcfg{mode: "gen", procs: p3, layouts: l3, hasNX: true, ncands: 2, maxAtt: 2, maxCalls: 2, faults: fG}.job("mc:gen:setnx:3x2x2:faults", false, inG, 16),
 		mcfg{mode: "gen", procs: p3, layouts: l3, hasNX: false, ncands: 2, maxAtt: 2, maxCalls: 2}.job("mc:gen:fallback:3x2x2", false, inF, 16),
 		// the repaired allocator (renewal written where the claim lives), memory+redis wiring
 		mcfg{mode: "node", procs: n3, nslots: 2, renew: "claim", wiring: "split", maxTicks: 5}.job("mc:node:timed:renew=claim:split", false, inN, 8),
@@ -207,9 +213,10 @@ func modelJobs(env *fw.Env) []fw.TLCJob {
 
 func genJobs(env *fw.Env) []fw.TLCJob {
 	jobs := []fw.TLCJob{
-		mcfg{mode: "gen", procs: p2, layouts: l2, hasNX: true, ncands: 2, maxAtt: 2, maxCalls: 2}.job("gen:setnx:2x2x2", true, inG, 8),
-		mcfg{mode: "gen", procs: p2, layouts: l2, hasNX: false, ncands: 2, maxAtt: 2, maxCalls: 2}.job("gen:fallback:2x2x2", true, inF, 8),
-		mcfg{mode: "node", procs: n3, nslots: 2}.job("gen:node:untimed", true, inN, 4),
+		// the fault configurations contain every fault-free transition too (the fault is optional)
+		mcfg{mode: "gen", procs: p2, layouts: l2, hasNX: true, ncands: 2, maxAtt: 2, maxCalls: 2, faults: fG}.job("gen:setnx:2x2x2", true, inG, 8),
+		mcfg{mode: "gen", procs: p2, layouts: l2, hasNX: false, ncands: 2, maxAtt: 2, maxCalls: 2, faults: fFq(env)}.job("gen:fallback:2x2x2", true, inF, 8),
+		mcfg{mode: "node", procs: n3, nslots: 2, faults: fN}.job("gen:node:untimed", true, inN, 4),
 	}
 	if env.Tier == "quick" {
 		// exhaustive only (prints nothing): the timed model of the repaired allocator (the model of the
@@ -228,6 +235,14 @@ func genJobs(env *fw.Env) []fw.TLCJob {
 	return jobs
 }
 
+// fallback-path faults only in the thorough tier (quick: 6 870 states without, 35 594 with)
+func fFq(env *fw.Env) string {
+	if env.Tier == "quick" {
+		return ""
+	}
+	return fF
+}
+
 // ---- expansion --------------------------------------------------------------------------------
 
 var apiKinds = [][2]string{{"gen", "client"}, {"gen", "user"}, {"mgr", "client"}, {"mgr", "user"}, {"mgr", "pmap"}, {"mgr", "node"}, {"gen", "pmap"}}
@@ -239,8 +254,9 @@ func hashOf(b []byte) int {
 }
 
 var (
-	stashMu sync.Mutex
-	stash   []behaviour // timed node behaviours; selected deterministically in ExtraBeh
+	stashMu   sync.Mutex
+	stash     []behaviour // timed node behaviours; selected deterministically in ExtraBeh
+	seenPlain = map[string]bool{}
 )
 
 // timedCat classifies a timed node behaviour; "" = not worth 2 minutes of real time
@@ -304,6 +320,25 @@ func expand(env *fw.Env, src string, raw json.RawMessage) []json.RawMessage {
 	}
 	if len(m.St) == 0 {
 		return nil
+	}
+	// a behaviour in which the fault has not happened is the same for every fault kind: drive it once
+	faulty := false
+	for _, s := range m.St {
+		if s.R == "fretry" || s.R == "ferr" || s.R == "fault" {
+			faulty = true
+		}
+	}
+	if !faulty {
+		m.Fk = "none"
+		k := src + string(fw.MustJSON(m))
+		stashMu.Lock()
+		dup := seenPlain[k]
+		seenPlain[k] = true
+		stashMu.Unlock()
+		if dup {
+			return nil
+		}
+		raw = fw.MustJSON(m)
 	}
 	h := hashOf(raw)
 	var out []json.RawMessage
@@ -388,12 +423,12 @@ func maxBehSrc(env *fw.Env, src string) int {
 	switch {
 	case strings.HasPrefix(src, "gen:node"):
 		if q {
-			return 2400
+			return 3000
 		}
 		return 0
 	case strings.HasPrefix(src, "gen:setnx"):
 		if q {
-			return 4000
+			return 5000
 		}
 		return 12000
 	case strings.HasPrefix(src, "gen:fallback"):
